@@ -480,3 +480,39 @@ def sym_path(path, env=None):
         else:
             out.append(('expr', s, subst(s, env), None))
     return out, env
+
+
+# ---------------------------------------------------------------------------
+# local aliases of pure attribute/subscript chains (tokens = tlist.tokens)
+
+def alias_map(fnode):
+    """{name: source text} for locals with exactly one definition that is a pure Attribute/Subscript/Name chain"""
+    if isinstance(fnode, ast.Lambda):
+        return {}
+    out = {}
+
+    def pure(e):
+        if isinstance(e, ast.Name):
+            return True
+        if isinstance(e, ast.Attribute):
+            return pure(e.value)
+        if isinstance(e, ast.Subscript):
+            return pure(e.value) and isinstance(e.slice, (ast.Constant, ast.UnaryOp))
+        return False
+    for name, defs in local_defs(fnode).items():
+        if len(defs) == 1 and isinstance(defs[0], ast.AST) and isinstance(defs[0], (ast.Attribute, ast.Subscript)) and pure(defs[0]):
+            out[name] = src(defs[0])
+    return out
+
+
+def canon_text(text, amap):
+    import re as _re
+    for _ in range(4):
+        changed = False
+        for name, val in amap.items():
+            new = _re.sub(r'(?<![\w.])' + _re.escape(name) + r'(?!\w)', val, text)
+            if new != text:
+                text, changed = new, True
+        if not changed:
+            break
+    return text
